@@ -516,8 +516,10 @@ func (sv stringValue) ReflectTo(c px.Context, value reflect.Value) {
 	case reflect.Interface:
 		value.Set(sv.Reflect(c))
 	case reflect.Ptr:
-		s := string(sv)
-		value.Set(reflect.ValueOf(&s))
+		// a new string of the destination's element type, which may be a defined type
+		p := reflect.New(value.Type().Elem())
+		p.Elem().SetString(string(sv))
+		value.Set(p)
 	default:
 		value.SetString(string(sv))
 	}
